@@ -22,6 +22,7 @@ type Env struct {
 	frame *Frame
 	pkg   *types.Package
 	inOld bool
+	inPrev bool // inside prev(): the loop-head state; a reassigned parameter denotes its value there, not at entry
 	hint  types.Type // expected type for untyped constants in conditional branches
 	newBase string   // allocation counter value at the start of the call: refs >= newBase are new
 	prev  *State      // state at the head of the current loop iteration (for prev())
@@ -218,7 +219,7 @@ func (x *Exec) lookupLocal(env *Env, name string) *Value {
 	// that are never reassigned, current cell value otherwise.
 	// Search executed allocs from the most recent backwards.
 	st := env.st
-	if env.inOld {
+	if env.inOld && !env.inPrev {
 		if v, ok := fr.Params[name]; ok {
 			return v
 		}
@@ -1027,6 +1028,7 @@ func (x *Exec) evalCall(env *Env, c *CCall) *Value {
 		}
 		n := *env
 		n.inOld = true
+		n.inPrev = true
 		n.old = env.prev
 		return x.eval(&n, c.Args[0])
 	case "len":
